@@ -275,6 +275,21 @@ def setup_worker():
     runrt._mods()
 
 
+def history_key(case):
+    """second run in one process: two-layer chains with every option vector,
+    one with a layer that cannot be torn down, one with a setUp fault"""
+    if case[0] == 2 and [list(b) for b in case[1]] == [[], [0]] and case[2] == 'i' and case[3] == 'fwd' and case[4] is None \
+            and list(case[5]) == [0, 1] and case[6] is False:
+        if not case[7]:
+            return ('opt', case[8])
+        if case[8] == 'none' and len(case[7]) == 1:
+            return ('fault', str(sorted(case[7].items())))
+    return None
+
+
+HISTORY_MAX = 10
+
+
 def run_case(case):
     if case[0] == 'cli':
         vs = run_cli_case(case[1], case[2], case[3])
